@@ -177,6 +177,25 @@ def run_tlc(module, cfg=None, files=None, workers=16, timeout=600, simulate=None
     return r
 
 
+def run_apalache(module, inv="Inv", init="Init", next_="Next", length=0, timeout=900):
+    """symbolic check of a state invariant with Apalache (SMT over unbounded integers); returns dict(ok, wall_s, outcome)"""
+    d = scratch("apa_")
+    shutil.copy(os.path.join(SPEC, module + ".tla"), d)
+    t0 = time.time()
+    try:
+        p = subprocess.run(["apalache-mc", "check", f"--init={init}", f"--next={next_}", f"--inv={inv}", f"--length={length}",
+                            f"--out-dir={d}/out", module + ".tla"], cwd=d, stdout=subprocess.PIPE, stderr=subprocess.STDOUT, text=True, timeout=timeout)
+    except subprocess.TimeoutExpired as ex:
+        raise MachineryError(f"Apalache timed out after {timeout}s: {module}") from ex
+    out = p.stdout
+    if "The outcome is: NoError" in out:
+        return {"ok": True, "wall_s": round(time.time() - t0, 1), "outcome": "NoError", "cmd": f"apalache-mc check --inv={inv} --length={length} {module}.tla"}
+    if "The outcome is: Error" in out and "invariant" in out:
+        bad = [l.split("I@")[0].strip() for l in out.splitlines() if "violated" in l]
+        return {"ok": False, "wall_s": round(time.time() - t0, 1), "outcome": "; ".join(bad)[:300], "cmd": f"apalache-mc check --inv={inv} {module}.tla"}
+    raise MachineryError("Apalache failed on %s: %s" % (module, out[-600:]))
+
+
 def must_pass(r, what):
     """TLC run that is pure machinery (enumeration/export): any failure is exit 2."""
     if r.error is not None or r.violated:
